@@ -16,6 +16,8 @@ of their UTF-8 bytes (`-` = empty).
 * `jfind <file> <variant> <key,key,…> <subject>` → find span of the joined pattern in that order
 * `onx <file> <variant> <user default|~>` → `open=<actions> close=<actions>` of the network on-X lists run against a
   driver whose default desired level is the user's (`~`: the definition's): `a<level>` acquire, `c<cmd>`, `w<input>`, `r`
+* `onxraw <g|n> <run-time default> <steps>` → actions of the generic / network interpreter on a step list in canonical text
+* `opts <name=value,…>` → `per=<outcome per option> all=<outcome of the block>` (`l<field>` lands, `p` panics, `b` ErrBadOption)
 * `graph <key/name/previous,…>` → `graph=<buildPrivGraph does not panic> tree=<singleTree> keyname=<keyEqName>`
 * `merge <9 base fields> <9 variant fields>` → the nine merged fields + ` kind= err=` (sections are
   opaque tokens; only presence matters to `mergeVariant`)
@@ -62,6 +64,44 @@ def showSections (p : Sections String String String) : String :=
 def checksS (d : Def) : String :=
   String.join ([driverTypeValid d, defaultLevelExists d, singleTree d, keyEqName d, patternsCompile d,
     witnessesOk d, authEdgesOk d, onxWellformed d, allReachable d, transitionsUnambiguous d].map b2s)
+
+def parseVal (s : String) : Option Val :=
+  match s.toList with
+  | 'n' :: [] => some .null
+  | 's' :: t => (unhexS (String.ofList t)).map .str
+  | 'b' :: '1' :: [] => some (.bool true)
+  | 'b' :: '0' :: [] => some (.bool false)
+  | 'i' :: t => (String.ofList t).toInt?.map .int
+  | 'f' :: t => (unhexS (String.ofList t)).map .float
+  | 'l' :: t => if t.isEmpty then some (.strList []) else (((String.ofList t).splitOn "+").mapM unhexS).map .strList
+  | 'o' :: t => (unhexS (String.ofList t)).map .other
+  | _ => none
+
+def parseKV (kv : String) : Option (String × Val) :=
+  match kv.splitOn "=" with
+  | [k, v] => match unhexS k, parseVal v with
+    | some k, some v => some (k, v)
+    | _, _ => none
+  | _ => none
+
+def parseStepsCanon (s : String) : Option (List Step) :=
+  if s == "nil" || s == "[]" then some [] else
+  (s.splitOn ";").mapM fun st =>
+    if st == "{}" then some ⟨[]⟩ else ((st.splitOn "&").mapM parseKV).map fun f => ⟨f⟩
+
+def showAct : OnxAction → String
+  | .write i => "w" ++ hexS i
+  | .ret => "r"
+  | .acquire t => "a" ++ hexS t
+  | .sendCommand c => "c" ++ hexS c
+  | .badValue => "e"
+  | .skip => "s"
+  | .panic => "p"
+
+def showOutcome : OptOutcome → String
+  | .lands f => "l" ++ hexS f
+  | .panics => "p"
+  | .badoption => "b"
 
 /-- line-protocol handler for property C17 (arguments after the leading `c17` token) -/
 def handleC17 : List String → String
@@ -118,6 +158,17 @@ def handleC17 : List String → String
       "open=" ++ showList ((runNetworkOnX r (l.d.netOnOpen.getD [])).map showA)
         ++ " close=" ++ showList ((runNetworkOnX r (l.d.netOnClose.getD [])).map showA)
     | _, _ => "bad-op"
+  | ["onxraw", flavour, hr, steps] =>
+    match unhexS hr, parseStepsCanon steps with
+    | some r, some st =>
+      showList ((if flavour == "g" then runGenericOnX st else runNetworkOnX r st).map showAct)
+    | _, _ => "bad-op"
+  | ["opts", os] =>
+    match (parseList os).mapM parseKV with
+    | some kvs =>
+      let ods := kvs.map fun kv => (⟨kv.1, kv.2⟩ : OptionDef)
+      "per=" ++ showList (ods.map fun o => showOutcome (optionOutcome o)) ++ " all=" ++ showOutcome (optionsOutcome ods)
+    | none => "bad-op"
   | ["graph", lv] =>
     let ls : Option (List Level) := (parseList lv).mapM fun e =>
       match (e.splitOn "/").mapM unhexS with
